@@ -4,6 +4,12 @@ B(x) == IF x THEN "ok" ELSE "err"
 GenRules == (seq = <<>>) =>
   /\ \A e \in EskKinds : \A c \in Containers : \A o \in Options :
        PrintT(<<"CASE", ToJson([kind |-> "esk", esk |-> e, container |-> c, options |-> o, expect |-> B(DecryptsViaEsk(e, c, o))])>>)
+  \* two ESKs for the same session key: the discarded one must not disturb the kept one, in either order
+  /\ \A e1 \in EskKinds : \A e2 \in EskKinds \ {e1} : \A c \in Containers : \A o \in Options :
+       PrintT(<<"CASE", ToJson([kind |-> "esk2", esk |-> e1, esk2 |-> e2, container |-> c, options |-> o,
+                                \* (two kept ESKs of different session-key kinds only occur for the non-standard GnuPG container: not constrained)
+                                expect |-> IF DecryptsViaEsk(e1, c, o) /\ DecryptsViaEsk(e2, c, o) /\ SkOf(e1) # SkOf(e2) THEN "dontcare"
+                                           ELSE B(DecryptsViaEsk(e1, c, o) \/ DecryptsViaEsk(e2, c, o))])>>)
   /\ \A sk \in {"V3_4", "V5", "V6"} : \A c \in Containers : \A o \in Options :
        PrintT(<<"CASE", ToJson([kind |-> "sessionkey", sk |-> sk, container |-> c, options |-> o, expect |-> B(DecryptsViaSessionKey(sk, c, o))])>>)
   /\ \A kv \in {4, 6} : \A sv \in {4, 6} : \A p \in VerifyPaths :
